@@ -4,6 +4,9 @@ Nothing here predicts what the engine should output; the oracle is the different
 the property states (strict vs. warn vs. lax) plus "no LiquidError escapes in warn/lax".
 
 Observation side effects:
+* clause 3b ("each suppressed error is reported as a warning", literal): if STRICT raises a
+  LiquidError for (source, data) and WARN does not raise, WARN must emit >= 1 warning; the signature
+  carries the STRICT raise site (innermost library frame file:function) and the error class.
 * ``install_sinks()`` wraps the two public error sinks ``liquid.Environment.error`` and
   ``liquid.context.RenderContext.error`` (class level) to count calls.  In STRICT every such
   call raises, so in LAX "calls to a sink" == "errors that strict mode would have raised at
@@ -89,7 +92,7 @@ def selfcheck_sinks(env_lax: Environment, env_warn: Environment) -> None:
 class Phase(NamedTuple):
     status: str  # "ok" | "liquid" | "other" | "skipped"
     err: Optional[str]  # exception class name
-    where: Optional[str]
+    where: Any  # other: file:function string; liquid: the exception (see raise_site)
     limit: bool  # error is a ResourceLimitError / UndefinedError (not a tolerance matter)
     sinks: int
     sink_kinds: tuple[str, ...]
@@ -134,21 +137,61 @@ class Obs(NamedTuple):
 SKIPPED = Phase("skipped", None, None, False, 0, (), 0, (), "")
 
 
+_REAL: dict[str, str] = {}
+
+
+def raise_site(e: Any) -> str:
+    """``relative/file.py:function`` of the innermost frame inside the library (cheap traceback walk)."""
+    if not isinstance(e, BaseException):
+        return str(e)
+    import os
+
+    best = "?"
+    tb = e.__traceback__
+    while tb is not None:
+        code = tb.tb_frame.f_code
+        fn = _REAL.get(code.co_filename)
+        if fn is None:
+            fn = _REAL[code.co_filename] = os.path.realpath(code.co_filename)
+        if fn.startswith(U.REPO + os.sep) and os.sep + "liquid" + os.sep in fn:
+            best = f"{os.path.relpath(fn, U.REPO)}:{code.co_name}"
+        tb = tb.tb_next
+    return best
+
+
+def _safe_str(e: BaseException) -> str:
+    """str(e) of a LiquidError formats the source position and may itself raise: never let that kill the harness."""
+    try:
+        return str(e)[:200]
+    except Exception as e2:  # noqa: BLE001
+        return f"<str() of {type(e).__name__} raised {type(e2).__name__}>"
+
+
+def err_msg(ph: "Phase") -> str:
+    return _safe_str(ph.where) if isinstance(ph.where, BaseException) else ph.msg
+
+
 def _phase(fn: Any, wlist: list[Any]) -> tuple[Phase, Any]:
     _Sinks.calls = 0
     _Sinks.kinds = []
     w0 = len(wlist)
-    o = U.outcome(fn)
+    status, err, where, limit, msg, value = "ok", None, None, False, "", None
+    try:
+        value = fn()
+    except LiquidError as e:
+        status, err = "liquid", type(e).__name__  # message: err_msg(), lazily
+        where = e  # resolved lazily by raise_site() (only violations need it)
+        limit = isinstance(e, (ResourceLimitError, UndefinedError))
+    except RecursionError as e:
+        status, err, where = "other", "RecursionError", U.innermost_repo_frame(e)
+    except Exception as e:  # noqa: BLE001  classification is the point
+        status, err, msg, where = "other", type(e).__name__, _safe_str(e), U.innermost_repo_frame(e)
+    sinks, kinds = _Sinks.calls, tuple(_Sinks.kinds)
     new = wlist[w0:]
     lw = sum(1 for x in new if issubclass(x.category, LiquidWarning))
     ow = tuple(sorted(f"{x.category.__name__}:{str(x.message)[:80]}" for x in new
                       if not issubclass(x.category, LiquidWarning)))
-    limit = False
-    if o.is_liquid_error:
-        limit = isinstance(o[3], (ResourceLimitError, UndefinedError))
-    ph = Phase(o[0], o.error_class, o.where, limit, _Sinks.calls, tuple(_Sinks.kinds), lw, ow,
-               "" if o.ok else str(o[2]))
-    return ph, (o.value if o.ok else None)
+    return Phase(status, err, where, limit, sinks, kinds, lw, ow, msg), value
 
 
 def observe_parse(env: Environment, source: str, wlist: list[Any]) -> tuple[Phase, Any]:
@@ -205,7 +248,7 @@ def judge(strict: Obs, warn: Obs, lax: Obs, counters: Any) -> list[tuple[dict[st
                     continue
                 out.append((
                     {"clause": f"{mode}-{phase_name}-raises", "exc": ph.err},
-                    f"{phase_name} raised {ph.err} in {mode} mode: {ph.msg[:120]}",
+                    f"{phase_name} raised {ph.err} in {mode} mode: {err_msg(ph)[:120]}",
                 ))
     if not usable:
         return out
@@ -259,9 +302,15 @@ def judge(strict: Obs, warn: Obs, lax: Obs, counters: Any) -> list[tuple[dict[st
         if lax.sinks:
             counters("strict_clean_but_lax_reached_error_sink")
     else:
-        # Statement is silent on whether WARN must warn when the strict error comes from a check that
-        # does not fire at all outside strict mode (nothing is "suppressed"): excluded and counted.
-        if lax.sinks == 0 and nwarn == 0:
-            counters("unspecified_excluded")
-            counters("strict_raises_but_nothing_suppressed_in_lax")
+        # ---- clause 3b: EACH suppressed error is reported: strict raises a Liquid error for this
+        # (source, data), warn does not raise => warn must emit at least one warning.
+        sph = strict.parse if strict.parse.status == "liquid" else strict.render
+        if nwarn == 0 and sph.limit:
+            counters("resource_limit_or_undefined_error_excluded")
+        elif nwarn == 0:
+            out.append((
+                {"clause": "strict-error-not-warned", "site": raise_site(sph.where), "exc": sph.err},
+                f"strict mode raises {sph.err} at {raise_site(sph.where)} ({(err_msg(sph).splitlines() or [''])[0][:90]}) "
+                f"but warn mode suppresses it without any warning (lax reached {lax.sinks} error sinks)",
+            ))
     return out
